@@ -68,12 +68,14 @@ def main(run):
     thorough = run.tier == "thorough"
     run.rule = ("programs written by TLC over StructAlphabet: 13 .repeat forms (n = 0..3, bodies with '.', with / % << >> of '.', hoisted "
                 "index expressions 2+2(r3) and c+2(r3), branches to an outer local label, nested repeats, .even and .blkb of '.', sob, "
-                "label/constant inside a body = error), insert_file of 0/7/300 bytes, .end, two includable files (one with .once and an "
+                "label/constant inside a body = error; a second small alphabet with n = 17, 33 (nested) and 40), insert_file of 0/7/300 bytes, .end, two includable files (one with .once and an "
                 "export, one ending early with junk behind .end), 1-2 linked files; each accepted program also as unrolled / inlined / "
                 "concatenated variant; non-trivial = accepted program containing .repeat, insert_file, .end or .include")
     bases = [512, 1026]
     recs, inc = explore(run, "StructAlphabet", "StructIncFiles", 3, 1, bases, label="AsmCore struct, 1 file x 3 stmts (exhaustive)")
     tasks = replay_all(run, recs, inc, {"harness_link": True}, nontrivial)
+    recsb, incb = explore(run, "StructBigAlphabet", "StructIncFiles", 3, 1, bases, label="AsmCore struct, large repeat counts 17/33/40 (exhaustive, 3 stmts)")
+    tasks += replay_all(run, recsb, incb, {"harness_link": True}, nontrivial)
     recs1, inc1 = explore(run, "StructAlphabet", "StructIncFiles", 2, 2, [512], extra=("concat",), timeout=3000,
                           simulate=None if thorough else 3000, depth=None if thorough else 6, seed=run.seed + 2,
                           label="AsmCore struct, 2 files x 2 stmts with LinkIsConcatenation (" + ("exhaustive" if thorough else "simulation") + ")")
@@ -103,5 +105,5 @@ def main(run):
     if ex:
         run.sample({"abstract": ex[len(ex) // 3][0]["files"], "predicted": ex[len(ex) // 3][0]["runs"][0]["image"]})
     run.exhaustive = False
-    run.assumptions += ["repeat counts are literals 0..3 in the exhaustive part (the property's n <= 40 is covered by C03's chain uses and by simulation only up to 3)",
+    run.assumptions += ["repeat counts are literals 0..3, 17 and 40; symbolic counts are exercised by C03 (chain value as .repeat count)",
                         "'.end' inside a .repeat body and '.link' inside included files are not generated (undefined by the property)"]
